@@ -62,6 +62,8 @@ func (e *SExpr) String() string {
 		return e.Op + " " + strings.Join(vs, ", ") + " :: " + e.Args[0].String()
 	case "typeis":
 		return e.Args[0].String() + ".(" + e.Name + ")"
+	case "cast":
+		return e.Args[0].String() + ".(as " + e.Name + ")"
 	}
 	return e.Op
 }
@@ -74,6 +76,7 @@ type Clause struct {
 }
 
 type LoopSpec struct {
+	Assume []Clause // assumed at the loop head, never proved
 	Inv []Clause
 	Dec *SExpr
 }
@@ -488,8 +491,12 @@ func (db *SpecDB) loadText(path, text, pkgHint string) error {
 					ls.Inv = append(ls.Inv, Clause{Label: lab, E: e, Src: r3})
 				case "decreases":
 					ls.Dec = e
+				case "assume":
+					// assumed at the loop head without proof; reported as an unchecked assumption
+					ls.Assume = append(ls.Assume, Clause{Label: lab, E: e, Src: r3})
+					db.Scan = append(db.Scan, fmt.Sprintf("loop assumption %s loop %d [%s] (%s:%d): %s", cur.Name, n, lab, filepath.Base(path), l.n, strings.TrimSpace(r3)))
 				default:
-					return fail(l.n, "loop n invariant|decreases")
+					return fail(l.n, "loop n invariant|decreases|assume")
 				}
 			case "ghost-exit":
 				i := strings.Index(rest, ":=")
@@ -934,7 +941,12 @@ func (p *sparser) postfix() (*SExpr, error) {
 			if err := p.expect(")"); err != nil {
 				return nil, err
 			}
-			e = &SExpr{Op: "typeis", Name: ty.String(), Args: []*SExpr{e}}
+			if tn := ty.String(); strings.HasPrefix(tn, "as*") || strings.HasPrefix(tn, "as ") {
+				// x.(as *T): the value seen as a *T (a cast, no test)
+				e = &SExpr{Op: "cast", Name: strings.TrimSpace(tn[2:]), Args: []*SExpr{e}}
+			} else {
+				e = &SExpr{Op: "typeis", Name: tn, Args: []*SExpr{e}}
+			}
 		case p.isOp("."):
 			p.p++
 			n := p.next()
